@@ -2175,3 +2175,123 @@ func ruleWipedCacheDropped(c *report.Ctx) {
 		}
 	}
 }
+
+// ruleNotificationsQueued (C01/C20): a chain notification is never dropped on a full queue.
+func ruleNotificationsQueued(c *report.Ctx) {
+	p := c.P
+	c.Rule("notifications-queued", "every chain notification handed to the follower (queueBlock, queueMsgTx) is queued by a blocking send: a non-blocking send drops the newest tips when the queue is full (e.g. while the handler is parked), and nothing re-delivers them", 2)
+	nh := p.Type(pkgWallet, "NtfnsHandler")
+	if nh == nil {
+		c.Lost("masswallet.NtfnsHandler")
+		return
+	}
+	isQueue := func(ch ssa.Value) string {
+		d := p.Desc(ch)
+		for _, q := range []string{"queueBlock", "queueMsgTx"} {
+			if strings.HasSuffix(d, "NtfnsHandler."+q) {
+				return q
+			}
+		}
+		return ""
+	}
+	seen := map[string]bool{}
+	for _, f := range p.ModFuncs {
+		pk := an.FuncPkg(f)
+		if pk == nil || pk.Path() != pkgWallet {
+			continue
+		}
+		an.Instrs(f, func(in ssa.Instruction) {
+			switch x := in.(type) {
+			case *ssa.Send:
+				if q := isQueue(x.Chan); q != "" {
+					seen[q] = true
+					c.OK(sk(f)+":send:"+q, "blocking send", posOf(c, in))
+				}
+			case *ssa.Select:
+				for _, st := range x.States {
+					if st.Dir != types.SendOnly {
+						continue
+					}
+					q := isQueue(st.Chan)
+					if q == "" {
+						continue
+					}
+					seen[q] = true
+					if x.Blocking {
+						c.OK(sk(f)+":send:"+q, "blocking select", posOf(c, in))
+					} else {
+						c.Fail(sk(f)+":send:"+q, sk(f)+" offers the notification to "+q+" in a select with a default case: when the queue is full the notification is dropped and the method still reports success, so the wallet stops short of the best chain until some later block happens to be announced", posOf(c, in))
+					}
+				}
+			}
+		})
+	}
+	for _, q := range []string{"queueBlock", "queueMsgTx"} {
+		if !seen[q] {
+			c.Fail("send:"+q, "anchor lost: nothing sends on NtfnsHandler."+q, "")
+		}
+	}
+}
+
+// ruleImportRetryOverride (C20/C18): a failed import round is dropped only for the one unrecoverable error.
+func ruleImportRetryOverride(c *report.Ctx) {
+	p := c.P
+	c.Rule("import-retry-override", "in worker(), an import round that returned an error is treated as finished only under equality with a named unrecoverable sentinel; every other error (reorg during the round, transient read or commit error) leaves fin as reported, so the task is queued again", 1)
+	w := fn(c, pkgWallet, "", "worker")
+	ai := fn(c, pkgWallet, "NtfnsHandler", "asyncImport")
+	push := fn(c, pkgWallet, "WalletTaskChan", "PushImport")
+	if w == nil || ai == nil || push == nil {
+		return
+	}
+	n := 0
+	for _, f := range append([]*ssa.Function{w}, w.AnonFuncs...) {
+		for _, s := range calls(f, push) {
+			// the guard !fin: fin = phi(asyncImport#0 | true …)
+			for _, a := range p.GuardsOf(s) {
+				if a.Op != token.ILLEGAL || a.Truth {
+					continue
+				}
+				ph, ok := a.X.(*ssa.Phi)
+				if !ok || !strings.Contains(p.Desc(ph), "asyncImport") {
+					continue
+				}
+				for i, e := range ph.Edges {
+					k, isK := e.(*ssa.Const)
+					if !isK || k.Value == nil || k.Value.ExactString() != "true" {
+						continue
+					}
+					n++
+					key := siteKey(f, "fin-override", n)
+					pred := ph.Block().Preds[i]
+					gs := p.Guards(pred)
+					if ea := edgeAtoms(p, pred, ph.Block()); ea != nil {
+						gs = append(gs, *ea)
+					}
+					okEq := an.AnyAtom(gs, func(g an.Atom) bool {
+						if g.Op != token.EQL {
+							return false
+						}
+						isErr := func(v ssa.Value) bool { return v != nil && strings.Contains(p.Desc(v), "asyncImport") }
+						isSent := func(v ssa.Value) bool {
+							ld, ok := v.(*ssa.UnOp)
+							if !ok {
+								return false
+							}
+							g2, ok := ld.X.(*ssa.Global)
+							return ok && p.Sentinel(g2)
+						}
+						return (isErr(g.X) && isSent(g.Y)) || (isErr(g.Y) && isSent(g.X))
+					})
+					if okEq {
+						c.OK(key, "override only under err == <unrecoverable sentinel>", p.Pos(ph.Pos()))
+					} else {
+						c.Fail(key, "a failed import round is marked finished on a path that is not restricted to one named unrecoverable error: a round that failed because a reorg or a transient storage/chain error hit it is dropped instead of queued again, and the wallet stays 'importing' until restart", p.Pos(ph.Pos()), an.AtomTexts(gs)...)
+					}
+				}
+			}
+		}
+	}
+	if n == 0 {
+		c.OK(sk(w)+":no-override", "fin is used as reported by asyncImport", p.Pos(w.Pos()))
+	}
+}
